@@ -756,6 +756,27 @@ fn transcript(ctx: &Ctx, script: &[String], from: usize) -> Result<Vec<String>, 
     Ok(out)
 }
 
+/// Like `transcript`, but every depth-limited go is interrupted by an injected delay: the process is stopped
+/// (SIGSTOP) a few milliseconds after the command was sent and continued `pause_ms` later.
+fn transcript_paused(ctx: &Ctx, script: &[String], pause_ms: u64) -> Result<Vec<String>, String> {
+    let mut e = bb::Engine::spawn(&ctx.engine_bin)?;
+    let mut out = vec![];
+    for cmd in script.iter() {
+        let depth_only = cmd.starts_with("go depth") && cmd.split_whitespace().count() == 3;
+        let r = if depth_only { e.command_with_pause(cmd, 3, pause_ms, Duration::from_secs(300)) } else { e.command(cmd, Duration::from_secs(300)) };
+        match r {
+            Ok(lines) => {
+                out.push(format!("> {}", cmd));
+                out.extend(lines.iter().map(|l| strip_volatile(l)));
+            }
+            Err(bb::Fail::Died(s)) => return Err(format!("died: {} on '{}'", s, cmd)),
+            Err(bb::Fail::Timeout) => return Err(format!("timeout on '{}'", cmd)),
+        }
+    }
+    e.quit();
+    Ok(out)
+}
+
 /// The script after `prefix ; ucinewgame` failed with a dead engine while a fresh process ran the same
 /// suffix to the end. When the engine is demonstrably alive right after `prefix ; ucinewgame` (a fresh
 /// process given exactly that answers isready), the death belongs to what came after ucinewgame: the engine
@@ -854,9 +875,9 @@ fn first_difference(a: &[String], b: &[String]) -> String {
 pub fn run_c13(ctx: &Ctx) -> i32 {
     let spec = Spec {
         level: "exploration",
-        rule: "cases: (a) a depth-limited script (2..7 position/go depth 3..6 commands on middlegames) run in N separate processes of the real binary — each draws its own random hash keys — must give byte-identical transcripts once the time and nps fields are removed; (b) in-process, K fresh searchers (K key sets) must agree on (score, move, node count) for each (position, depth); (c) the transcript of a script after 'prefix; ucinewgame' (prefix: searches, time-limited searches, long position histories, games from the start position that repeat positions two or three times; the script often starts with a bare go, which searches the start position) must equal its transcript in a fresh process; (c') after 1..24 quick searches and ucinewgame, a whole game searched move after move (12..20 searches at depth 4..5) must equal the same game in a fresh process; an engine that dies in the compared part while a fresh process runs it to the end (and that demonstrably survives 'prefix; ucinewgame') differs from a fresh process too. Distinct by script / (position, depth); all non-trivial (every case compares at least two executions)",
+        rule: "cases: (a) a depth-limited script (2..7 position/go depth 3..6 commands on middlegames) run in N separate processes of the real binary — each draws its own random hash keys — must give byte-identical transcripts once the time and nps fields are removed; (b) in-process, K fresh searchers (K key sets) must agree on (score, move, node count) for each (position, depth); (c) the transcript of a script after 'prefix; ucinewgame' (prefix: searches, time-limited searches, long position histories, games from the start position that repeat positions two or three times; the script often starts with a bare go, which searches the start position) must equal its transcript in a fresh process; (c') after 1..24 quick searches and ucinewgame, a whole game searched move after move (12..20 searches at depth 4..5) must equal the same game in a fresh process; an engine that dies in the compared part while a fresh process runs it to the end (and that demonstrably survives 'prefix; ucinewgame') differs from a fresh process too; (d) injected delays: a depth-limited script (optionally with a depth-1 go that carries a move time or a clock first) is run once normally and once with the process stopped (SIGSTOP) for 0.7..1.1 s in the middle of every 'go depth N' — the transcripts must be identical. Distinct by script / (position, depth); all non-trivial (every case compares at least two executions)",
         assumptions: vec!["key sets not drawn in this run are not covered".into(), "only depth-limited searches are compared (time-limited ones legitimately depend on the machine)".into()],
-        required: if ctx.replay.is_some() { vec![] } else { vec!["scripts_compared_across_processes", "process_pairs_compared", "key_set_groups_compared", "ucinewgame_scripts_compared", "ucinewgame_scripts_starting_with_bare_go", "ucinewgame_scripts_resuming_the_previous_game_line", "soak_scripts_compared", "ucinewgame_then_a_whole_game_compared"] },
+        required: if ctx.replay.is_some() { vec![] } else { vec!["scripts_compared_across_processes", "process_pairs_compared", "key_set_groups_compared", "ucinewgame_scripts_compared", "ucinewgame_scripts_starting_with_bare_go", "ucinewgame_scripts_resuming_the_previous_game_line", "soak_scripts_compared", "ucinewgame_then_a_whole_game_compared", "scripts_compared_with_and_without_injected_delays", "paused_scripts_after_a_go_that_carried_a_clock_and_ended_at_once"] },
         exhaustive: false,
         extra: vec![],
     };
@@ -864,6 +885,18 @@ pub fn run_c13(ctx: &Ctx) -> i32 {
         let mut st = Stats::new();
         if let Some(c) = r.get("case") {
             let cmds: Vec<String> = c.get("commands").and_then(|a| a.as_arr()).map(|a| a.iter().filter_map(|x| x.as_str().map(|s| s.to_string())).collect()).unwrap_or_default();
+            if c.str_of("kind") == "paused" {
+                st.case(1, true);
+                match (transcript_paused(ctx, &cmds, 0), transcript_paused(ctx, &cmds, 1100)) {
+                    (Ok(a), Ok(b)) => {
+                        if a != b {
+                            st.violation("C13:replay", format!("output differs when the process is stopped for 1100 ms in the middle of each 'go depth': {}", first_difference(&a, &b)), c.clone());
+                        }
+                    }
+                    _ => st.inconclusive.push("replay: a process failed".into()),
+                }
+                return finalize(ctx, spec, st);
+            }
             let from = c.int_of("compare_from") as usize;
             let fresh: Vec<String> = cmds[from.min(cmds.len())..].iter().filter(|c| *c != "ucinewgame" || from == 0).cloned().collect();
             st.case(1, true);
@@ -1116,6 +1149,52 @@ pub fn run_c13(ctx: &Ctx) -> i32 {
                     );
                 }
                 (Err(e), _) | (_, Err(e)) => st.inconclusive.push(format!("C13 script failed: {}", e)),
+            }
+        }
+        // (d) injected delays: the output of depth-limited searches must not depend on how long they take.
+        // The script runs once normally and once with the process stopped for a while in the middle of
+        // every 'go depth N' — also right after a go that carried a clock or a move time but ended at once
+        // (depth 1), which may leave a deadline behind that only a slow or delayed later search runs into.
+        if w < (if ctx.quick() { 6 } else { 16 }) {
+            for rep in 0..(if ctx.quick() { 1 } else { 4 }) {
+                let m = rng.range(0, 24) as usize;
+                let (ps, ms) = gen::playout(&Pos::start(), &mut rng, m);
+                if ps.last().unwrap().legal_moves().is_empty() {
+                    continue;
+                }
+                let mv: Vec<String> = ms.iter().map(|m| m.uci()).collect();
+                let pos = if mv.is_empty() { "position startpos".to_string() } else { format!("position startpos moves {}", mv.join(" ")) };
+                let timed = match (w + rep) % 3 {
+                    0 => Some(format!("go depth 1 movetime {}", rng.pick(&[300u64, 500, 800]))),
+                    1 => Some(format!("go depth 1 wtime {} btime {} winc 0 binc 0", 20_000, 20_000)),
+                    _ => None,
+                };
+                let mut script = vec![pos.clone()];
+                if let Some(t) = timed.as_ref() {
+                    script.push(t.clone());
+                    st.bump("paused_scripts_after_a_go_that_carried_a_clock_and_ended_at_once");
+                }
+                let d = if ps.last().unwrap().piece_count() <= 14 { 6 } else { 5 };
+                script.push(format!("go depth {}", d));
+                script.push(pos.clone());
+                script.push(format!("go depth {}", d - 1));
+                let case = J::obj(vec![("kind", J::s("paused")), ("commands", J::arr_s(script.clone())), ("compare_from", J::i(0))]);
+                st.case(hash64(&(script.clone(), 0xdeu8)), true);
+                st.sample_tagged("paused", || case.clone());
+                let pause = *rng.pick(&[700u64, 1100]);
+                match (transcript_paused(ctx, &script, 0), transcript_paused(ctx, &script, pause)) {
+                    (Ok(a), Ok(b)) => {
+                        st.bump("scripts_compared_with_and_without_injected_delays");
+                        if a != b {
+                            st.violation(
+                                format!("C13:delay:{}", script.join(";")),
+                                format!("the same depth-limited script gives different output when the process is stopped for {} ms in the middle of each 'go depth': {} [script: {}]", pause, first_difference(&a, &b), script.join(" ; ")),
+                                case,
+                            );
+                        }
+                    }
+                    (Err(e), _) | (_, Err(e)) => st.inconclusive.push(format!("C13 script failed: {}", e)),
+                }
             }
         }
         // (b) key sets in-process
